@@ -301,7 +301,12 @@ impl<CharIter: Iterator<Item = char>> Lexer<CharIter> {
                         Some(self.location)
                     );
                 }
-                Some('|') => break Ok(Some(TokenData::Identifier(identifier_str))),
+                Some('|') => {
+                    if let Some(nc) = self.peekable_char_stream.peek() {
+                        Self::test_delimiter(Some(self.location), *nc)?;
+                    }
+                    break Ok(Some(TokenData::Identifier(identifier_str)));
+                }
                 Some(nc) => identifier_str.push(*nc),
             }
         }
